@@ -269,3 +269,18 @@ Definition observation_eqb (a b: observation) : bool :=
   | VExtra x, VExtra y => list_eqb key_eqb x y
   | _, _ => false
   end.
+
+(* ---- views used by the harness to compare the modelled Python/dataclasses semantics with the real classes ---- *)
+Definition decl_view (ds: list (fld * bool)) : list (string * option string * bool) :=
+  map (fun p => (f_name (fst p), f_meta (fst p), snd p)) ds.
+
+Definition ostr_eqb (a b: option string) : bool :=
+  match a, b with Some x, Some y => String.eqb x y | None, None => true | _, _ => false end.
+
+Definition view_eqb (a b: list (string * option string * bool)) : bool :=
+  list_eqb (fun p q => String.eqb (fst (fst p)) (fst (fst q)) && ostr_eqb (snd (fst p)) (snd (fst q))
+                       && Bool.eqb (snd p) (snd q)) a b.
+
+Definition cfg_eqb (a b: cfg) : bool :=
+  list_eqb (fun p q => String.eqb (fst p) (fst q) && String.eqb (snd p) (snd q)) (g_aliases a) (g_aliases b)
+  && Bool.eqb (g_allow a) (g_allow b) && Bool.eqb (g_forbid a) (g_forbid b).
